@@ -94,14 +94,14 @@ def gen_programs(ctx, n):
         t_items = rng.sample(WORDS, rng.randint(2, 6))
         m_items = rng.sample(WORDS, rng.randint(3, 7))
         n_items = rng.sample(range(-20, 40), rng.randint(3, 8))
-        mix = rng.sample(WORDS, 3) + rng.sample(range(0, 30), 3) + ["TRUEX"]
+        mix = rng.sample(WORDS, 3) + rng.sample(range(0, 30), 3) + ["TRUEX"] + rng.sample(["NULLX", "FALSEX", "LISTX", "DECX"], 2)
         rng.shuffle(mix)
         def mk_header(order):
             si, ti, mi, ni, mx, m2 = order
             return (f"def S = {lit_set(si)}; def T = {lit_set(ti)}; "
                     f"def M = <<<{', '.join(lit(k) + ' => ' + str(v) for k, v in mi)}>>>; "
                     f"def M2 = <<<{', '.join(lit(k) + ' => ' + str(v) for k, v in m2)}>>>; "
-                    f"def N = {lit_set(ni)}; def MIX = <<{', '.join(lit(x) if x != 'TRUEX' else 'TRUE' for x in mx)}>>; "
+                    f"def N = {lit_set(ni)}; def MIX = <<{', '.join(SPECIAL.get(x, None) or lit(x) for x in mx)}>>; "
                     "def while_result(q) do def l = list(q); def i = 0; def out = []; while i < length(l) do append(out, l[i]); i += 1 end; out end; ")
         m_pairs = [(k, i) for i, k in enumerate(m_items)]
         m2 = [('fig', 1), ('kiwi', 2), ('zz', 3), ('aa', 4)]
@@ -116,6 +116,7 @@ def gen_programs(ctx, n):
 
 
 TWINS = {}
+SPECIAL = {"TRUEX": "TRUE", "NULLX": "NULL", "FALSEX": "FALSE", "LISTX": "['in', 'list']", "DECX": "2.5"}
 
 
 def canon_dump(d):
